@@ -314,6 +314,25 @@ Section Spec.
     eexists _, _. split; [reflexivity|]. split; [reflexivity | exact C].
   Qed.
 
+  (* the loop as written: independence holds between two orders that are both leak-free *)
+  Theorem independent_when_unhedged d imp cs cs' outs :
+    cs <> [] -> wf outs cs -> Permutation cs cs' -> leak_free outs cs -> leak_free outs cs' ->
+    exists o1 o2, modify_gen true d imp cs outs = Ok o1 /\ modify_gen true d imp cs' outs = Ok o2 /\
+      forall i v, nth_error outs i = Some v ->
+        nth_error o1 i = Some (extend_fuzzy v (flat_map (contribution outs d imp i) cs)) /\
+        nth_error o2 i = Some (extend_fuzzy v (flat_map (contribution outs d imp i) cs')) /\
+        Permutation (flat_map (contribution outs d imp i) cs) (flat_map (contribution outs d imp i) cs').
+  Proof.
+    intros Hne Hwf P L1 L2.
+    assert (Hne' : cs' <> []) by (intros ->; apply Permutation_sym, Permutation_nil in P; congruence).
+    destruct (modify_spec_when_unhedged d imp Hne Hwf L1) as [o1 [H1 [_ E1]]].
+    destruct (modify_spec_when_unhedged d imp Hne' (wf_perm P Hwf) L2) as [o2 [H2 [_ E2]]].
+    exists o1, o2. repeat split; auto.
+    - now apply E1.
+    - now apply E2.
+    - now apply Permutation_flat_map.
+  Qed.
+
   (* ---- facts that hold for both loops *)
   Lemma contributions_with_disabled_var outs imp i v : nth_error outs i = Some v -> ov_enabled v = false ->
     forall cs gs, contributions_with outs imp i cs gs = [].
@@ -553,6 +572,13 @@ Section Witness.
 
   Lemma refute_independent_if : sanitize w_very <> sanitize w_d -> ~ independent_for (modify_gen true).
   Proof. intros H Hi. apply (refute_order_if H). now apply independent_implies_order_insensitive. Qed.
+
+  Lemma leak_free_example : leak_free w_outs [w_c2; w_c1] /\ ~ leak_free w_outs w_cs.
+  Proof.
+    split.
+    - cbn. split; [intros _ H; exfalso; apply H; reflexivity | split; [intros _ _; constructor | exact I]].
+    - intros [H _]. specialize (H eq_refl ltac:(discriminate)). inversion H as [|? ? Hd _]. discriminate Hd.
+  Qed.
 End Witness.
 
 (* ======================================================================= Part 3: the reals *)
